@@ -838,3 +838,152 @@ Proof.
         rewrite HreadA. cbn [more_data].
         rewrite skipn_all2 by lia. rewrite app_nil_r. reflexivity.
 Qed.
+
+(* ---------- lyb_write() against lyb_read() ---------- *)
+Lemma write_sim bs st st1 :
+  winv st -> lyb_write bs st = Ok st1 ->
+  winv st1 /\ Sim st st1 (lyb_read (blen bs)) bs.
+Proof.
+  intros Hinv E. unfold LybChunk.lyb_write in E.
+  destruct (loop_sim _ _ _ _ _ Hinv eq_refl E) as [H1 H2]. split; [exact H1|].
+  intros h' Hh'. destruct (H2 h' Hh') as (h & tail & Hh & Hf & Hr).
+  exists h, tail. split; [exact Hh|]. split; [exact Hf|].
+  intro rest. unfold LybChunk.lyb_read. cbn [r_sibs].
+  rewrite rview_length by (apply (Forall2_len _ _ _ Hh)). apply Hr.
+Qed.
+
+(* ---------- whole scripts ---------- *)
+Lemma run_sim : forall script st st1,
+  winv st -> run_write_from script st = Ok st1 ->
+  winv st1 /\ Sim st st1 (run_read_from (shape script)) (payloads script).
+Proof.
+  induction script as [|o script IH]; intros st st1 Hinv E; cbn [LybChunk.run_write_from] in E.
+  - inversion E; subst st1. split; [exact Hinv|].
+    intros h' Hh'. exists h', []. split; [exact Hh'|]. split; [rewrite app_nil_r; reflexivity|].
+    intro rest. reflexivity.
+  - destruct (write_op o st) as [st0|e] eqn:Eo; [|discriminate].
+    destruct o as [|bs|]; cbn [LybChunk.write_op] in Eo.
+    + destruct (start_sim _ _ Hinv Eo) as [Hinv0 Hs0].
+      destruct (IH _ _ Hinv0 E) as [Hinv1 Hs1]. split; [exact Hinv1|].
+      intros h' Hh'. destruct (Hs1 h' Hh') as (h0 & t1 & Hh0 & Hf1 & Hr1).
+      destruct (Hs0 h0 Hh0) as (h & t0 & Hh & Hf0 & Hr0).
+      exists h, (t0 ++ t1). split; [exact Hh|]. split; [rewrite Hf1, Hf0, app_assoc; reflexivity|].
+      intro rest. cbn [shape map shape_op payloads LybChunk.run_read_from].
+      rewrite <- app_assoc. specialize (Hr0 (t1 ++ rest)). unfold lift in Hr0.
+      destruct (lyb_read_start_siblings _) as [r0|e0]; [|discriminate]. inversion Hr0; subst r0.
+      apply Hr1.
+    + destruct (write_sim _ _ _ Hinv Eo) as [Hinv0 Hs0].
+      destruct (IH _ _ Hinv0 E) as [Hinv1 Hs1]. split; [exact Hinv1|].
+      intros h' Hh'. destruct (Hs1 h' Hh') as (h0 & t1 & Hh0 & Hf1 & Hr1).
+      destruct (Hs0 h0 Hh0) as (h & t0 & Hh & Hf0 & Hr0).
+      exists h, (t0 ++ t1). split; [exact Hh|]. split; [rewrite Hf1, Hf0, app_assoc; reflexivity|].
+      intro rest. cbn [shape map shape_op payloads LybChunk.run_read_from].
+      rewrite <- app_assoc. rewrite Hr0. fold (shape script). rewrite Hr1. reflexivity.
+    + destruct (stop_sim _ _ Hinv Eo) as [Hinv0 Hs0].
+      destruct (IH _ _ Hinv0 E) as [Hinv1 Hs1]. split; [exact Hinv1|].
+      intros h' Hh'. destruct (Hs1 h' Hh') as (h0 & t1 & Hh0 & Hf1 & Hr1).
+      destruct (Hs0 h0 Hh0) as (h & t0 & Hh & Hf0 & Hr0).
+      exists h, (t0 ++ t1). split; [exact Hh|]. split; [rewrite Hf1, Hf0, app_assoc; reflexivity|].
+      intro rest. cbn [shape map shape_op payloads LybChunk.run_read_from].
+      rewrite <- app_assoc. specialize (Hr0 (t1 ++ rest)). unfold lift in Hr0.
+      destruct (lyb_read_stop_siblings _) as [r0|e0]; [|discriminate]. inversion Hr0; subst r0.
+      apply Hr1.
+Qed.
+
+Lemma winv_init : winv w_init.
+Proof. unfold winv, holes_ok, w_init. cbn. repeat split; constructor. Qed.
+
+(* the round trip for a script that leaves no siblings open *)
+Theorem chunk_roundtrip_closed script st :
+  run_write script = Ok st -> w_sibs st = [] ->
+  run_read (shape script) (w_out st) = Ok (payloads script, mk_r [] []).
+Proof.
+  intros E Hs. unfold LybChunk.run_write in E.
+  destruct (run_sim _ _ _ winv_init E) as [_ Hsim]. unfold Sim in Hsim. rewrite Hs in Hsim.
+  destruct (Hsim [] (Forall2_nil _)) as (h & tail & Hh & Hf & Hr).
+  cbn [w_init w_sibs w_out] in Hh, Hf, Hr. inversion Hh; subst h.
+  cbn [fill app rview] in Hf, Hr. specialize (Hr []). rewrite app_nil_r in Hr.
+  unfold LybChunk.run_read. rewrite Hf. exact Hr.
+Qed.
+
+(* ---------- well-bracketed scripts leave no siblings open ---------- *)
+Lemma map_levels_length f l : length (map_levels f l) = length l.
+Proof. induction l as [|s l IH]; cbn [map_levels length]; [reflexivity|]. rewrite IH. reflexivity. Qed.
+
+Lemma write_loop_depth : forall fuel buf count st st1,
+  write_loop fuel buf count st = Ok st1 -> length (w_sibs st1) = length (w_sibs st).
+Proof.
+  induction fuel as [|f IH]; intros buf count st st1 E; [discriminate|].
+  cbn [LybChunk.write_loop] in E.
+  destruct (wscan (w_sibs st) count) as [tw full].
+  fold (stA st tw buf) in E. rewrite !stA_if, !skip_if, !cnt_if in E.
+  assert (LA : length (w_sibs (stA st tw buf)) = length (w_sibs st)).
+  { unfold stA. cbn [w_sibs]. apply map_length. }
+  destruct full as [k|].
+  - destruct (negb (tw =? 0) && _); [discriminate|].
+    destruct (get_level _ k); [|discriminate].
+    destruct (exists_level _ _); [discriminate|].
+    apply IH in E. rewrite E. cbn [w_sibs]. rewrite !map_levels_length. exact LA.
+  - destruct (count =? 0); [inversion E; reflexivity|].
+    destruct (negb (tw =? 0) && _); [discriminate|].
+    apply IH in E. rewrite E. exact LA.
+Qed.
+
+Lemma run_depth : forall script st st1,
+  run_write_from script st = Ok st1 ->
+  bracketed script (length (w_sibs st)) = Some (length (w_sibs st1)).
+Proof.
+  induction script as [|o script IH]; intros st st1 E; cbn [LybChunk.run_write_from bracketed] in *.
+  - inversion E; reflexivity.
+  - destruct (write_op o st) as [st0|e] eqn:Eo; [|discriminate].
+    destruct o as [|bs|]; cbn [LybChunk.write_op] in Eo.
+    + unfold LybChunk.lyb_write_start_siblings in Eo. destruct (existsb _ _); [discriminate|].
+      inversion Eo; subst st0. rewrite <- (IH _ _ E). cbn [w_sibs length]. rewrite map_length. reflexivity.
+    + unfold LybChunk.lyb_write in Eo. apply write_loop_depth in Eo. rewrite <- Eo. apply IH. exact E.
+    + unfold LybChunk.lyb_write_stop_siblings in Eo. destruct (w_sibs st) as [|s outer]; [discriminate|].
+      inversion Eo; subst st0. cbn [length]. rewrite <- (IH _ _ E). reflexivity.
+Qed.
+
+(* lyb_chunk_roundtrip, parametric in the constants *)
+Theorem chunk_roundtrip_gen script st :
+  well_bracketed script = true -> run_write script = Ok st ->
+  run_read (shape script) (w_out st) = Ok (payloads script, mk_r [] []).
+Proof.
+  intros Hb E. apply chunk_roundtrip_closed; [exact E|].
+  unfold well_bracketed in Hb. pose proof (run_depth _ _ _ E) as Hd. cbn [w_init w_sibs length] in Hd.
+  rewrite Hd in Hb. destruct (w_sibs st); [reflexivity|discriminate].
+Qed.
+
+End Proofs.
+
+(* ------------------------------------------------------------------------------------------ *)
+(* the constants of src/lyb.h meet the side conditions                                         *)
+(* ------------------------------------------------------------------------------------------ *)
+Lemma consts_max_pos : 0 < Consts.LYB_SIZE_MAX.
+Proof. reflexivity. Qed.
+
+(* written & LYB_SIZE_MAX loses nothing: LYB_SIZE_MAX is all ones *)
+Lemma consts_mask : forall w, w <= Consts.LYB_SIZE_MAX -> N.land w Consts.LYB_SIZE_MAX = w.
+Proof.
+  intros w Hw.
+  assert (E : Consts.LYB_SIZE_MAX = N.ones (N.succ (N.log2 Consts.LYB_SIZE_MAX))) by (vm_compute; reflexivity).
+  rewrite E, N.land_ones. apply N.mod_small.
+  assert (E2 : 2 ^ N.succ (N.log2 Consts.LYB_SIZE_MAX) = Consts.LYB_SIZE_MAX + 1) by (vm_compute; reflexivity).
+  rewrite E2. lia.
+Qed.
+
+(* the size fits LYB_SIZE_BYTES bytes *)
+Lemma consts_fit : Consts.LYB_SIZE_MAX < 2 ^ (8 * Consts.LYB_SIZE_BYTES).
+Proof. reflexivity. Qed.
+
+Lemma consts_meta : Consts.LYB_META_BYTES = Consts.LYB_SIZE_BYTES + Consts.LYB_INCHUNK_BYTES.
+Proof. reflexivity. Qed.
+
+(* lyb_chunk_roundtrip for the model of the code *)
+Theorem lyb_chunk_roundtrip_proof script st :
+  well_bracketed script = true -> lyb_run_write script = Ok st ->
+  lyb_run_read (shape script) (w_out st) = Ok (payloads script, mk_r [] []).
+Proof.
+  apply (chunk_roundtrip_gen Consts.LYB_SIZE_MAX Consts.LYB_SIZE_BYTES Consts.LYB_INCHUNK_MAX
+           Consts.LYB_INCHUNK_BYTES Consts.LYB_META_BYTES consts_max_pos consts_mask consts_fit consts_meta).
+Qed.
